@@ -3,6 +3,7 @@
 package vault
 
 import (
+	"github.com/openbao/openbao/v2/internal/helper/namespace"
 	"fmt"
 	"os"
 	"strings"
@@ -112,7 +113,36 @@ func TestVerif_C10_CrashInRotation(t *testing.T) {
 		defer func() { w.tc.shutdown() }()
 		steps := rapid.IntRange(0, 5).Draw(rt, "steps")
 		for i := 0; i < steps; i++ {
-			switch rapid.SampledFrom([]string{"write", "write", "rotate", "rotate-root", "rekey", "seal-unseal", "rejected-root-generation"}).Draw(rt, fmt.Sprintf("op%d", i)) {
+			switch rapid.SampledFrom([]string{"write", "write", "rotate", "rotate-root", "rekey", "seal-unseal", "rejected-root-generation", "abandoned-verified-rotation"}).Draw(rt, fmt.Sprintf("op%d", i)) {
+			case "abandoned-verified-rotation":
+				// a rotation of the unseal shares that must be verified before it takes effect is authorised with the
+				// current shares (the new shares are handed out) and then cancelled instead of verified: the handed-out
+				// shares never become valid, and nothing of the pending key may stay in use
+				if !shamir {
+					continue
+				}
+				sm := tc.c.sealManager
+				ns := namespace.RootNamespace
+				nsh := rapid.IntRange(1, 4).Draw(rt, "pendingShares")
+				nth := c10Threshold(rt, nsh, "pendingThreshold")
+				if _, err := sm.InitRotation(tc.ctx, ns, &SealConfig{SecretShares: nsh, SecretThreshold: nth, VerificationRequired: true}, false); err != nil {
+					t.Fatalf("harness: init of a verified rotation: %v", err)
+				}
+				nonce := sm.RotationConfig(ns.UUID, false).Nonce
+				var res *RekeyResult
+				for j := 0; j < w.thr; j++ {
+					var err error
+					if res, err = sm.UpdateRotation(tc.ctx, ns, TestKeyCopy(w.keys[j]), nonce, false); err != nil {
+						t.Fatalf("harness: update of a verified rotation: %v", err)
+					}
+				}
+				if res == nil || !res.VerificationRequired {
+					t.Fatalf("harness: rotation did not wait for verification: %+v", res)
+				}
+				if err := sm.CancelRotation(tc.ctx, ns.UUID, false); err != nil {
+					t.Fatalf("harness: cancel: %v", err)
+				}
+				w.logf("rotation to %d/%d shares authorised, awaiting verification, cancelled", nth, nsh)
 			case "rejected-root-generation":
 				// somebody completes a root-token generation with shares that are not the genuine ones: it is refused,
 				// and must leave the seal's key material alone (a later share-less rotation persists under it)
